@@ -363,7 +363,31 @@ def ufunc_support(op, args, shape):
             elif known(core.sc_eq(x, y)) is not True:
                 return False
         return True
-    sups = [view_support(a, shape) if same_shape(a.shape, shape) else None for a in arrs]
+    def bsupport(a):
+        """support of operand a in the coordinates of the broadcast result; points are replicated along axes
+        that are broadcast from extent 1 to a small concrete extent"""
+        if same_shape(a.shape, shape):
+            return view_support(a, shape)
+        if len(a.shape) != len(shape):
+            return None
+        sup = view_support(a)
+        if sup is None:
+            return None
+        rep = []
+        for k, (e, t) in enumerate(zip(a.shape, shape)):
+            if (isinstance(e, int) and isinstance(t, int) and e == t) or (not (isinstance(e, int) and isinstance(t, int)) and known(core.sc_eq(e, t)) is True):
+                rep.append(None)
+            elif isinstance(e, int) and e == 1 and isinstance(t, int) and t <= 4:
+                rep.append(t)
+            else:
+                return None
+        out = [(c, q) for c, q in sup]
+        for k, t in enumerate(rep):
+            if t is None:
+                continue
+            out = [(c, q[:k] + (i,) + q[k + 1:]) for c, q in out for i in range(t)]
+        return out
+    sups = [bsupport(a) for a in arrs]
     if op in ('mul',):
         for s_ in sups:
             if s_ is not None:
@@ -547,6 +571,12 @@ def assign(I, fr, tgt, val):
     if tgt.buf.support is not None:
         if isinstance(val, CArr):
             vs_ = view_support(val) if len(val.shape) == len(tshape) else None
+            if vs_ is not None:
+                for e, t in zip(val.shape, tshape):
+                    same = (e == t) if (isinstance(e, int) and isinstance(t, int)) else (known(core.sc_eq(e, t)) is True)
+                    if not same:
+                        vs_ = None      # broadcast along an axis: support points would have to be replicated
+                        break
             if vs_ is None:
                 tgt.buf.support = None
             else:
@@ -683,13 +713,29 @@ def sum_axis(I, fr, a, axis, keepdims):
     shape = list(a.shape)
     shape[axis] = 1
 
+    # the descriptor is a *set* of candidate points: syntactic duplicates are dropped, and an entry only counts
+    # when no earlier (active) entry denotes the same index
+    uniq, seen = [], set()
+    for cond, q in sup:
+        key = (z3.simplify(sbool(cond).t).sexpr(),) + tuple(z3.simplify(S.lift(x).t).sexpr() for x in q)
+        if key in seen:
+            continue
+        seen.add(key)
+        uniq.append((cond, q))
+
     def f(idx):
         acc = S.lift(0.0)
-        for cond, q in sup:
+        for i, (cond, q) in enumerate(uniq):
             conds = [cond]
             for k in range(len(shape)):
                 if k != axis:
                     conds.append(core.sc_eq(idx[k], q[k]))
+            for (c2, q2) in uniq[:i]:
+                same = s_and(c2, *[core.sc_eq(a, b) for a, b in zip(q, q2)])
+                sc = same.concrete()
+                if sc is False:
+                    continue
+                conds.append(s_not(same))
             acc = acc + s_if(s_and(*conds), snap(q), 0.0)
         return acc
     nsup = [(c, tuple(0 if k == axis else q[k] for k in range(len(shape)))) for c, q in sup]
